@@ -83,7 +83,7 @@ let () =
       let line = input_line ic in
       match String.split_on_char ' ' (String.trim line) with
       | id :: toks when id <> "" ->
-          let flags = ref 0 and width = ref 80 and cmds = ref [] and args = ref [] in
+          let flags = ref 0 and width = ref 80 and cmds = ref [] and args = ref [] and again = ref 0 in
           let t1 = ref None and t2 = ref None in
           (* sub-groups: (keyspec, flags, desc, arguments in reverse order), latest first *)
           let groups = ref [] in
@@ -95,6 +95,7 @@ let () =
                  if starts "f=" t then flags := int_of_string (after "f=" t)
                  else if starts "w=" t then width := int_of_string (after "w=" t)
                  else if starts "c=" t then cmds := List.map parse_cmd (split_on ',' (after "c=" t))
+                 else if starts "again=" t then again := int_of_string (after "again=" t)
                  else if starts "a:" t then
                    (match !groups with
                     | [] -> args := parse_arg t :: !args
@@ -116,7 +117,10 @@ let () =
                  | Err e -> raise (Setup (err_name e))
                  | Fault f -> raise (Setup (fault_name f))) !groups in
              let r =
-               if sgs = [] then
+               if sgs = [] && !again > 0 then
+                 eval_case_again !t1 !t2 (n_of_int !flags) (nat_of_int !width) (List.rev !args) !cmds (nat_of_int !again)
+               else if !again > 0 then raise (Setup "unsupported")
+               else if sgs = [] then
                  eval_case_txt !t1 !t2 (n_of_int !flags) (nat_of_int !width) (List.rev !args) !cmds
                else
                  eval_case_sg !t1 !t2 sgs (n_of_int !flags) (nat_of_int !width) (List.rev !args) !cmds in
